@@ -26,6 +26,8 @@ var pathDocs = []string{
 	`[0,-0,1.5,-2,1e300,"1","abc",true,false,null,[1],{"a":1}]`,
 	`{"n":[1,2,3,4,5,6,7,8,9,10],"s":["a","b","c"],"m":[[1,2],[3,4,5],[],[6]]}`,
 	`7`, `"str"`, `null`, `[]`, `{}`, `[1e400,1]`,
+	// a wide array (decimal keys 10, 11 … sort before 2 as text) of scalars and of containers
+	`{"w":[0,1,2,3,4,5,6,7,8,9,10,11,12,13],"c":[[0],[1],[2],[3],[4],[5],[6],[7],[8],[9],[10,100],[11]]}`,
 	// control characters of both halves of the C0 range in keys (their \u00XX escapes differ in the high nibble), next to their low-nibble twins
 	`{"\u001b":{"x":1},"\u000b":{"x":2},"\u0010":[3],"\u0000":[4],"\u001f\u000f":5,"plain":{"x":6}}`,
 	// escapes followed by a long tail (an in-place or pooled unescape shows only when the rest of the string is long), in values and keys
